@@ -119,6 +119,27 @@ Theorem C01_program_is_the_model :
     resolve_gen fz ps (check_current fz o2 pfuel gh) root path nosym nf.
 Proof. exact resolve_is_gen. Qed.
 
+(* the real program, with the premise reduced to the kernel's d_path contract: whenever
+   as_unsafe_path -- the library's reading of /proc/thread-self/fd/N -- returns, for a
+   descriptor open on the object with path [exp] below the root, an absolute path made of
+   the root directory's components followed by [exp], opath::resolve itself (check_current
+   included) returns the walk's answer.  (Static.v has no procfs, so this premise cannot be
+   discharged inside the model; ties T1/T2 observe it on every traced lookup.) *)
+Theorem C01_resolve_refines_walk :
+  forall s df rootcomps, wf s df -> links_ok s -> names_ok s ->
+  forall fz o2 pfuel gh, fz <> 0%nat -> getpath_ok s rootcomps (as_unsafe_path fz o2 pfuel gh) ->
+  forall ps nosym nf t root path, tget t root = Some ROOT -> has_nul path = false ->
+    match ewalk s path nf nosym with
+    | WOk o => exists t' fd, run s t (opath_resolve_root fz o2 pfuel gh ps root path nosym nf) = Done t' (Ok fd) /\ tget t' fd = Some o
+    | WErr n => exists t', run s t (opath_resolve_root fz o2 pfuel gh ps root path nosym nf) = Done t' (Err (OsError n))
+    | WBudget => exists t', run s t (opath_resolve_root fz o2 pfuel gh ps root path nosym nf) = Done t' (Err (OsError ELOOP))
+    end.
+Proof.
+  intros s df rc Hwf Hl Hn fz o2 pfuel gh Hfz Hg ps nosym nf t root path Hroot Hnul.
+  rewrite resolve_is_gen.
+  apply (C01_program_refines_walk s df Hwf Hl fz _ Hfz (check_current_static s rc _ Hn Hg) ps nosym nf t root path Hroot Hnul).
+Qed.
+
 (* non-vacuity: the premises are met by a concrete tree and check routine, and the
    program really runs to the kernel's answer there *)
 Example C01_program_concrete :
@@ -137,3 +158,4 @@ Proof. split; [vm_compute; reflexivity|]. split; [intros t cur root exp o _ _ _;
 Print Assumptions C01_program_refines_walk.
 Print Assumptions C01_program_eq_kernel.
 Print Assumptions C01_program_is_the_model.
+Print Assumptions C01_resolve_refines_walk.
